@@ -61,6 +61,12 @@ def base_model(variant=0):
     wn.get_link("V2").tag = "ctrl-valve"
     # overflow flags in every combination with a volume curve over the variants: (plain, curve) = (no, no), (yes, yes), (no, yes)
     wn.get_node("T1").overflow = variant == 1
+    # every tank mixing model over the variants (with a mixing fraction, once exactly 0.0)
+    wn.get_node("T1").mixing_model = ("MIXED", "2COMP", "FIFO")[variant % 3]
+    wn.get_node("T2").mixing_model = ("2COMP", "LIFO", "MIXED")[variant % 3]
+    # (the INP format carries a mixing fraction for the two-compartment model only)
+    wn.get_node("T1").mixing_fraction = (None, 0.0, None)[variant % 3]
+    wn.get_node("T2").mixing_fraction = (0.25, None, None)[variant % 3]
     wn.get_node("T2").overflow = variant in (1, 2)
     if variant in (0, 1):
         wn.get_node("J7").add_leak(wn, area=0.001, discharge_coeff=0.7)
